@@ -65,7 +65,11 @@ func parseCommand(c *updateContext, entry sm.Entry) (command, error) {
 	if err := cmd.UnmarshalVTUnsafe(entry.Cmd); err != nil {
 		return commandDummy{}, err
 	}
-	c.leaderIndex = cmd.LeaderIndex
+	// Keep the leader index of an earlier entry of the same apply call when this entry carries none,
+	// so that the recorded leader index does not depend on how entries are batched.
+	if cmd.LeaderIndex != nil {
+		c.leaderIndex = cmd.LeaderIndex
+	}
 	return wrapCommand(cmd), nil
 }
 
